@@ -18,8 +18,18 @@ import threading
 import time
 
 
-class RecordingFuture:
-    """Not a pykka.Future: the JSON-RPC wrapper passes plain values through."""
+import logging
+
+
+def quiet_logs():
+    """The server logs every refusal / traceback of the (expected) 500 answers; keep the
+    check's output to its verdict lines."""
+    for name in ("mopidy", "tornado.application", "tornado.access", "tornado.general", "pykka", "asyncio"):
+        lg = logging.getLogger(name)
+        lg.setLevel(logging.CRITICAL + 1)
+        lg.propagate = False
+        if not lg.handlers:
+            lg.addHandler(logging.NullHandler())
 
 
 class RecordingCore:
@@ -70,6 +80,7 @@ class LiveServer:
         from mopidy.http import actor, handlers
         import tornado.netutil
 
+        quiet_logs()
         self.handlers = handlers
         self.actor = actor
         self.tmp = tempfile.mkdtemp(prefix="verif-http-")
@@ -230,3 +241,26 @@ def ws_handshake_headers():
     key = base64.b64encode(os.urandom(16) if False else b"verif-websocket!")
     return [b"Upgrade: websocket", b"Connection: Upgrade", b"Sec-WebSocket-Key: " + key,
             b"Sec-WebSocket-Version: 13"]
+
+
+def coqchk_stage(chk, area, prop_files, timeout=1500):
+    """Independent re-check of the compiled property modules with coqchk (thorough tier).
+
+    Local to the Http area: vlib.Check.coqchk mis-parses coqchk's "* Axioms: <none>"
+    summary (reported to the lead); this one reads only the Axioms block.
+    """
+    from pathlib import Path
+
+    from common import vlib
+
+    mods = [f"{area}.{Path(p).stem}" for p in prop_files]
+    rc, out, _ = vlib._run(["coqchk", "-silent", "-o", *vlib.area_flags(area), *mods], timeout)
+    chk.checker_cmds.append("coqchk -silent -o " + " ".join(mods))
+    axioms = []
+    if "Axioms:" in out:
+        block = out.split("Axioms:", 1)[1].split("\n*", 1)[0]
+        axioms = [l.strip() for l in block.splitlines() if l.strip() and l.strip() != "<none>"]
+    allowed = {x.split(".")[-1] for x in vlib.ALLOWED_AXIOMS}
+    bad = [a for a in axioms if a.split(".")[-1] not in allowed]
+    chk.axioms["coqchk"] = axioms or "none"
+    chk.obligation("coqchk", "audit", rc == 0 and not bad, out[-1500:] if (rc or bad) else "")
